@@ -775,6 +775,11 @@ func (e *Engine) addGhost(t, id string) {
 func (e *Engine) pickRef(r *core.Rand, m *Model, t string, pool []string) string {
 	ex := e.existing(m, t)
 	x := r.Float()
+	// one popular target (the smallest existing id) collects many referrers: restrict checks and cascades with three
+	// and more direct referrers
+	if len(ex) > 0 && x < 0.3 {
+		return ex[0]
+	}
 	if len(ex) > 0 && x < 0.8 {
 		return core.Pick(r, ex)
 	}
